@@ -9,6 +9,7 @@ import (
 	"compress/flate"
 	"errors"
 	"io"
+	"sync"
 
 	"github.com/go-json-experiment/json"
 )
@@ -260,4 +261,125 @@ func verifStub_io_CopyN(dst io.Writer, src io.Reader, n int64) (int64, error) {
 		}
 	}
 	return written, nil
+}
+
+// ---- sync.Map: an association list per map ----------------------------------
+//
+// The real type is a lock-free trie over atomics and unsafe pointers. The model
+// keeps its documented sequential behaviour; as a concurrency-safe container its
+// state is exempt from the C12 ownership monitor (engine: verifStub_sync_*).
+
+type verifSyncMapState struct {
+	m    *sync.Map
+	keys []any
+	vals []any
+}
+
+var verifSyncMaps []*verifSyncMapState
+
+func verifSyncMapFor(m *sync.Map) *verifSyncMapState {
+	for _, s := range verifSyncMaps {
+		if s.m == m {
+			return s
+		}
+	}
+	s := &verifSyncMapState{m: m}
+	verifSyncMaps = append(verifSyncMaps, s)
+	return s
+}
+
+func (s *verifSyncMapState) find(key any) int {
+	for i := range s.keys {
+		if s.keys[i] == key {
+			return i
+		}
+	}
+	return -1
+}
+
+func (s *verifSyncMapState) remove(i int) {
+	s.keys = append(s.keys[:i:i], s.keys[i+1:]...)
+	s.vals = append(s.vals[:i:i], s.vals[i+1:]...)
+}
+
+func verifStub_sync_Map_Load(m *sync.Map, key any) (any, bool) {
+	s := verifSyncMapFor(m)
+	if i := s.find(key); i >= 0 {
+		return s.vals[i], true
+	}
+	return nil, false
+}
+
+func verifStub_sync_Map_Store(m *sync.Map, key, value any) {
+	verifStub_sync_Map_Swap(m, key, value)
+}
+
+func verifStub_sync_Map_Swap(m *sync.Map, key, value any) (any, bool) {
+	s := verifSyncMapFor(m)
+	if i := s.find(key); i >= 0 {
+		old := s.vals[i]
+		s.vals[i] = value
+		return old, true
+	}
+	s.keys = append(s.keys, key)
+	s.vals = append(s.vals, value)
+	return nil, false
+}
+
+func verifStub_sync_Map_LoadOrStore(m *sync.Map, key, value any) (any, bool) {
+	s := verifSyncMapFor(m)
+	if i := s.find(key); i >= 0 {
+		return s.vals[i], true
+	}
+	s.keys = append(s.keys, key)
+	s.vals = append(s.vals, value)
+	return value, false
+}
+
+func verifStub_sync_Map_LoadAndDelete(m *sync.Map, key any) (any, bool) {
+	s := verifSyncMapFor(m)
+	if i := s.find(key); i >= 0 {
+		old := s.vals[i]
+		s.remove(i)
+		return old, true
+	}
+	return nil, false
+}
+
+func verifStub_sync_Map_Delete(m *sync.Map, key any) {
+	verifStub_sync_Map_LoadAndDelete(m, key)
+}
+
+func verifStub_sync_Map_CompareAndSwap(m *sync.Map, key, old, new any) bool {
+	s := verifSyncMapFor(m)
+	if i := s.find(key); i >= 0 && s.vals[i] == old {
+		s.vals[i] = new
+		return true
+	}
+	return false
+}
+
+func verifStub_sync_Map_CompareAndDelete(m *sync.Map, key, old any) bool {
+	s := verifSyncMapFor(m)
+	if i := s.find(key); i >= 0 && s.vals[i] == old {
+		s.remove(i)
+		return true
+	}
+	return false
+}
+
+func verifStub_sync_Map_Range(m *sync.Map, f func(key, value any) bool) {
+	s := verifSyncMapFor(m)
+	keys := append([]any(nil), s.keys...)
+	vals := append([]any(nil), s.vals...)
+	for i := range keys {
+		if !f(keys[i], vals[i]) {
+			return
+		}
+	}
+}
+
+func verifStub_sync_Map_Clear(m *sync.Map) {
+	s := verifSyncMapFor(m)
+	s.keys, s.vals = nil, nil
 }
